@@ -203,8 +203,15 @@ def workload(ctx, lentil):
             recent = recent[-80:]
         seen_keys.add((m, n, M, N))
         f = _rand_complex(rng, (m, n))
-        if rng.random() < 0.15:
+        r_ = rng.random()
+        if r_ < 0.15:
             f = f.real.copy()
+        elif r_ < 0.22:
+            f = np.round(f.real * 10).astype(np.int64)          # integer / boolean / single-precision inputs are arrays too
+        elif r_ < 0.27:
+            f = f.astype(np.complex64)
+        elif r_ < 0.3:
+            f = f.real > 0
         iso = rng.random() < 0.35
         def _alpha(size):
             k = rng.integers(0, 4)
